@@ -21,6 +21,7 @@ import copy
 import itertools
 from typing import Dict, List, Optional, Set, Tuple
 
+from .cfg import InlineBlock, InlineJump
 from .core import FuncInfo, Repo, is_logging_call
 
 _counter = itertools.count(1)
@@ -31,45 +32,27 @@ class NotInlinable(Exception):
     pass
 
 
-def _contains_return(stmts: List[ast.stmt]) -> bool:
-    for s in stmts:
-        for n in ast.walk(s):
-            if isinstance(n, ast.Return):
-                return True
-    return False
+class _ReturnRewriter(ast.NodeTransformer):
+    """`return v` -> `<ret> = v; InlineJump(label)` (nested function definitions are left alone)"""
 
+    def __init__(self, ret: str, label: str):
+        self.ret, self.label, self.count, self.valued = ret, label, 0, False
 
-def _always_returns(stmts: List[ast.stmt]) -> bool:
-    if not stmts:
-        return False
-    last = stmts[-1]
-    if isinstance(last, (ast.Return, ast.Raise)):
-        return True
-    if isinstance(last, ast.If):
-        return _always_returns(last.body) and _always_returns(last.orelse)
-    return False
+    def visit_FunctionDef(self, n):
+        return n
 
+    visit_AsyncFunctionDef = visit_Lambda = visit_FunctionDef
 
-def eliminate_returns(stmts: List[ast.stmt], ret: str) -> List[ast.stmt]:
-    """structured return elimination; raises NotInlinable when a return sits inside a loop / try / with"""
-    out: List[ast.stmt] = []
-    for i, s in enumerate(stmts):
-        if isinstance(s, ast.Return):
-            val = s.value if s.value is not None else ast.Constant(value=None)
-            out.append(ast.copy_location(ast.Assign(targets=[ast.Name(id=ret, ctx=ast.Store())], value=val, lineno=s.lineno), s))
-            return out
-        if isinstance(s, ast.If) and (_contains_return(s.body) or _contains_return(s.orelse)):
-            rest = stmts[i + 1:]
-            b = list(s.body) + ([] if _always_returns(s.body) else copy.deepcopy(rest))
-            o = list(s.orelse) + ([] if _always_returns(s.orelse) else copy.deepcopy(rest))
-            nb = eliminate_returns(b, ret) or [ast.copy_location(ast.Pass(), s)]
-            no = eliminate_returns(o, ret)
-            out.append(ast.copy_location(ast.If(test=s.test, body=nb, orelse=no), s))
-            return out
-        if isinstance(s, (ast.For, ast.While, ast.Try, ast.With)) and _contains_return([s]):
-            raise NotInlinable("return inside a loop / try / with")
-        out.append(s)
-    return out
+    def visit_Return(self, s):
+        self.count += 1
+        out = []
+        if s.value is not None:
+            self.valued = True
+            out.append(ast.copy_location(ast.Assign(targets=[ast.Name(id=self.ret, ctx=ast.Store())], value=s.value, lineno=s.lineno), s))
+        j = ast.copy_location(InlineJump(), s)
+        j.label = self.label
+        out.append(j)
+        return out
 
 
 class _Renamer(ast.NodeTransformer):
@@ -147,7 +130,7 @@ class Flattener:
         if body and isinstance(body[0], ast.Expr) and isinstance(body[0].value, ast.Constant) and isinstance(body[0].value.value, str):
             body = body[1:]
         params = list(callee.params)
-        binds: List[Tuple[str, ast.AST]] = []
+        binds: List[Tuple[str, ast.AST, str]] = []
         mapping = {x: f"{x}__i{n}" for x in _local_names(fn)}
         if callee.is_method:
             self_name = params[0]
@@ -157,7 +140,7 @@ class Flattener:
             elif isinstance(recv, ast.Call) and isinstance(recv.func, ast.Name) and recv.func.id == "super":
                 mapping[self_name] = self.f.self_name or "self"
             else:
-                binds.append((mapping.setdefault(self_name, f"{self_name}__i{n}"), copy.deepcopy(recv)))
+                binds.append((mapping.setdefault(self_name, f"{self_name}__i{n}"), copy.deepcopy(recv), self_name))
         bound: Dict[str, ast.AST] = {}
         for p, a in zip(params, call.args):
             bound[p] = a
@@ -165,23 +148,40 @@ class Flattener:
             bound[k.arg] = k.value
         for p in params:
             if p in bound:
-                binds.append((mapping[p], copy.deepcopy(bound[p])))
+                binds.append((mapping[p], copy.deepcopy(bound[p]), p))
             elif p in callee.defaults:
-                binds.append((mapping[p], copy.deepcopy(callee.defaults[p])))
+                binds.append((mapping[p], copy.deepcopy(callee.defaults[p]), p))
             else:
                 raise NotInlinable(f"argument for {p} missing")
         ret = f"__ret__i{n}"
-        body = eliminate_returns(body, ret)
-        has_value = any(isinstance(s, ast.Assign) and any(isinstance(t, ast.Name) and t.id == ret for t in s.targets)
-                        for s in ast.walk(ast.Module(body=body, type_ignores=[])))
+        label = f"i{n}:{callee.qn}"
+        trailing = None
+        if body and isinstance(body[-1], ast.Return):
+            trailing = body.pop()
+        rw = _ReturnRewriter(ret, label)
+        body = [x for st in body for x in (lambda r: r if isinstance(r, list) else [r])(rw.visit(st))]
+        has_value = rw.valued or (trailing is not None and trailing.value is not None)
+        if trailing is not None and trailing.value is not None:
+            body.append(ast.copy_location(ast.Assign(targets=[ast.Name(id=ret, ctx=ast.Store())], value=trailing.value, lineno=trailing.lineno), trailing))
         ren = _Renamer(mapping)
-        body = [ren.visit(s) for s in body]
+        body = [ren.visit(st) for st in body]
         pre: List[ast.stmt] = []
-        for name, val in binds:
-            pre.append(ast.copy_location(ast.Assign(targets=[ast.Name(id=name, ctx=ast.Store())], value=val, lineno=call.lineno), call))
-        if has_value and not _always_assigns(body, ret):
+        anns = {a.arg: a.annotation for a in fn.args.posonlyargs + fn.args.args + fn.args.kwonlyargs}
+        for name, val, orig in binds:
+            tgt = ast.Name(id=name, ctx=ast.Store())
+            if anns.get(orig) is not None:
+                st = ast.AnnAssign(target=tgt, annotation=anns[orig], value=val, simple=1)
+            else:
+                st = ast.Assign(targets=[tgt], value=val, lineno=call.lineno)
+            pre.append(ast.copy_location(st, call))
+        if has_value and trailing is None:
             pre.append(ast.copy_location(ast.Assign(targets=[ast.Name(id=ret, ctx=ast.Store())], value=ast.Constant(value=None), lineno=call.lineno), call))
-        stmts = pre + body
+        if rw.count:
+            blk = ast.copy_location(InlineBlock(test=ast.Constant(value=True), body=body or [ast.Pass()], orelse=[]), call)
+            blk.label = label
+            stmts = pre + [blk]
+        else:
+            stmts = pre + body
         # recursive flattening of what was pulled in (the callee is the resolution context)
         sub = Flattener(self.repo, self.f, self.depth, self.also)
         sub.inlined = self.inlined
@@ -268,24 +268,11 @@ class Flattener:
         return flat
 
 
-def _always_assigns(stmts: List[ast.stmt], name: str) -> bool:
-    if not stmts:
-        return False
-    last = stmts[-1]
-    if isinstance(last, ast.Assign) and any(isinstance(t, ast.Name) and t.id == name for t in last.targets):
-        return True
-    if isinstance(last, ast.If):
-        return _always_assigns(last.body, name) and _always_assigns(last.orelse, name)
-    if isinstance(last, ast.Raise):
-        return True
-    return False
-
-
-_cache: Dict[Tuple[int, str, int, Tuple[str, ...]], FuncInfo] = {}
+_cache: Dict[tuple, FuncInfo] = {}
 
 
 def flatten(repo: Repo, f: FuncInfo, depth: int = MAX_DEPTH, also: Optional[Set[str]] = None) -> FuncInfo:
-    key = (id(repo), f.qn, depth, tuple(sorted(also or ())))
+    key = (id(repo), f.qn, id(f.node), depth, tuple(sorted(also or ())))
     if key not in _cache:
         _cache[key] = Flattener(repo, f, depth, also).run()
     return _cache[key]
